@@ -150,6 +150,11 @@ func init() {
 	// later, the deposit has moved and the votes were set before the rollback
 	reg("rC3", "register", kC3, new(big.Int).Add(params.MinCandidateDeposit, node.Lemo(150)), "true")
 	vote("vVC3", kV, kC3)
+	// a first registration whose profile says isCandidate=false: the deposit is paid, the account is unregistered from the start
+	reg("rC3false", "register-as-non-candidate", kC3, new(big.Int).Add(params.MinCandidateDeposit, node.Lemo(150)), "false")
+	// isCandidate is neither "true" nor "false": in a first registration, in a profile update of the candidate C1
+	reg("rC3maybe", "register-with-undefined-isCandidate", kC3, new(big.Int).Add(params.MinCandidateDeposit, node.Lemo(150)), "maybe")
+	reg("pC1maybe", "profile-update-with-undefined-isCandidate", kC1, new(big.Int), "maybe")
 	// contract calls by X carrying 150 LEMO: forwarded to V; forwarded then REVERT; forwarded then invalid opcode
 	call("kFwdV", "contract-forwards-to-voter", "fwdV", 150)
 	call("kRevV", "contract-forwards-to-voter-then-reverts", "revV", 150)
@@ -282,6 +287,10 @@ var (
 	rSubs      = []string{"uC1+100", "vVC1", "vVC2", "tXV150", "xC1", "rC3", "vXnc"}
 	rSubsMore  = []string{"tVX150", "vWC2", "uC1+50", "kRevV", "tWbig", "uC1+big", "xC2", "vVC3"}
 	rPlainMore = []string{"dVbig$", "vWC2", "uC1+50", "tXV50", "xC2", "kNewRevV", "vVC3"}
+	// register transactions whose isCandidate field is "false" in a FIRST registration / is neither "true" nor
+	// "false" (first registration, profile update): plain items of blocks without a box in both tiers,
+	// sub-transactions in the thorough tier
+	rOddRegs = []string{"rC3false", "rC3maybe", "pC1maybe"}
 )
 
 // rBoxes lists every box of 1..n sub-transactions over subs, each alone and with every "@gJ".
@@ -381,14 +390,14 @@ func rMenu(depth int) []string {
 	switch {
 	case !core.Thorough() && depth == 1:
 		// every block of <= 2 plain items; every box of <= 2 sub-transactions with <= 1 plain neighbour
-		m = append(m, rPlainBlocks(rPlain, 2)...)
+		m = append(m, rPlainBlocks(append(append([]string{}, rPlain...), rOddRegs...), 2)...)
 		m = append(m, rWithBox(rBoxes(rSubs, 2), rPlain, false)...)
 	case core.Thorough() && depth == 1:
 		// the quick menu; boxes of <= 2 sub-transactions with a plain item before AND after (6 x 6
 		// neighbours); boxes of <= 2 over the larger sub-transaction alphabet with <= 1 neighbour; boxes of 3
 		// sub-transactions (6 letters) with <= 1 neighbour out of 4; blocks of <= 2 plain items over the larger alphabet
-		allSubs := append(append([]string{}, rSubs...), rSubsMore...)
-		allPlain := append(append([]string{}, rPlain...), rPlainMore...)
+		allSubs := append(append(append([]string{}, rSubs...), rSubsMore...), rOddRegs...)
+		allPlain := append(append(append([]string{}, rPlain...), rPlainMore...), rOddRegs...)
 		m = append(m, rPlainBlocks(allPlain, 2)...)
 		m = append(m, rWithBox(rBoxes(rSubs, 2), rPlain, false)...)
 		m = append(m, rWithBox(rBoxes(rSubs, 2), rPlain[:6], true)...)
@@ -397,7 +406,7 @@ func rMenu(depth int) []string {
 		m = append(m, rWithBox(rBoxes([]string{"rC3", "vVC3", "xC1", "vXnc"}, 3), []string{"rC3", "vVC3"}, false)...)
 	case core.Thorough() && depth == 2:
 		// second block: one plain item; a one-sub-transaction box; a box undone by its last sub-transaction
-		m = append(m, rPlainBlocks(rPlain, 1)...)
+		m = append(m, rPlainBlocks(append(append([]string{}, rPlain...), rOddRegs...), 1)...)
 		for _, x := range rSubs[:6] {
 			m = append(m, "B:"+x, "B:"+x+";vXnc")
 		}
@@ -643,6 +652,11 @@ func runR(full []string) core.Outcome {
 			if i > 0 {
 				fpHist = rShape(hist[:i]) + fpShape
 			}
+			if strings.Contains(mismatchClasses(mm), "undefined-candidate-state-tally") {
+				// the class of the case is the register transaction that left isCandidate undefined; what makes
+				// the count drift afterwards (any balance change or re-vote of a voter) varies freely
+				fpHist = "after[" + strings.Join(rKindsContaining(hist[:i+1], "undefined-isCandidate"), ",") + "]"
+			}
 			viol("tally-mismatch/"+mismatchClasses(mm)+"/"+where+"/"+fpHist, fmt.Sprintf("after block %d %q (%s): %s", i+1, ev, where, fmtMismatches(mm)))
 			o.Tags = append(o.Tags, "R/mismatch/"+shape)
 			return o
@@ -751,6 +765,31 @@ func mismatchClasses(mm []mismatch) string {
 	}
 	sort.Strings(l)
 	return strings.Join(l, "+")
+}
+
+// rKindsContaining: the kinds (sorted, unique) of all plain items / sub-transactions of the history whose kind contains sub.
+func rKindsContaining(hist []string, sub string) []string {
+	set := map[string]bool{}
+	for _, ev := range hist {
+		items, _ := parseBlock(ev)
+		for _, it := range items {
+			names := []string{it.text}
+			if it.box {
+				names = it.subs
+			}
+			for _, n := range names {
+				if k := rLetters[n].kind; strings.Contains(k, sub) {
+					set[k] = true
+				}
+			}
+		}
+	}
+	l := make([]string, 0, len(set))
+	for k := range set {
+		l = append(l, k)
+	}
+	sort.Strings(l)
+	return l
 }
 
 func rShape(hist []string) string {
@@ -935,7 +974,7 @@ func rSmaller(h []string) [][]string {
 }
 
 func rBounds() map[string]interface{} {
-	b := map[string]interface{}{"scenarios": rScenarioNames(), "max_blocks": rMaxBlocks(), "plain_items": rPlain, "sub_transactions": rSubs}
+	b := map[string]interface{}{"scenarios": rScenarioNames(), "max_blocks": rMaxBlocks(), "plain_items": rPlain, "sub_transactions": rSubs, "plain_items_in_blocks_without_a_box": rOddRegs}
 	if core.Thorough() {
 		b["plain_items_more"] = rPlainMore
 		b["sub_transactions_more"] = rSubsMore
@@ -949,11 +988,11 @@ func rBounds() map[string]interface{} {
 func rRuleText() string {
 	t := "PHASE R (rolled-back work on the miner path; same BFS, scenarios R0 = C1, C2 registered, nobody votes / R1 = V and W vote C1): a block is a list of items = plain transactions and boxes B:s1;s2[;s3] (signed by X, sub-transactions by their own senders), optionally with the block gas limit reached at sub-transaction J (@gJ); built by the factory's real MineBlock (ApplyTxs: a failing transaction is undone with RevertToSnapshot and dropped), inserted into a real validator node; "
 	if core.Thorough() {
-		t += fmt.Sprintf("first block: %d blocks (every block of <= 2 plain items over %d letters; every box of <= 2 sub-transactions over %d letters x every @gJ with <= 1 plain neighbour out of %d, over %d letters also with a neighbour before AND after out of 6; boxes of 3 sub-transactions over 6 letters with <= 1 neighbour out of 4); second block from every distinct state: %d blocks; ", len(rMenu(1)), len(rPlain)+len(rPlainMore), len(rSubs)+len(rSubsMore), len(rPlain), len(rSubs), len(rMenu(2)))
+		t += fmt.Sprintf("first block: %d blocks (every block of <= 2 plain items over %d letters; every box of <= 2 sub-transactions over %d letters x every @gJ with <= 1 plain neighbour out of %d, over %d letters also with a neighbour before AND after out of 6; boxes of 3 sub-transactions over 6 letters with <= 1 neighbour out of 4); second block from every distinct state: %d blocks; ", len(rMenu(1)), len(rPlain)+len(rPlainMore)+len(rOddRegs), len(rSubs)+len(rSubsMore)+len(rOddRegs), len(rPlain), len(rSubs), len(rMenu(2)))
 	} else {
-		t += fmt.Sprintf("one block after the prefix out of %d (every block of <= 2 plain items over %d letters; every box of <= 2 sub-transactions over %d letters, alone and with every @gJ, with <= 1 plain neighbour before or after); ", len(rMenu(1)), len(rPlain), len(rSubs))
+		t += fmt.Sprintf("one block after the prefix out of %d (every block of <= 2 plain items over %d letters; every box of <= 2 sub-transactions over %d letters, alone and with every @gJ, with <= 1 plain neighbour out of %d before or after); ", len(rMenu(1)), len(rPlain)+len(rOddRegs), len(rSubs), len(rPlain))
 	}
-	return t + "plain items: transfers over V's 200-LEMO step in both directions, vote / re-vote, top-up over the 100-LEMO step, unregister, a first registration, contract calls that forward 150 LEMO to V (ok / then REVERT / then invalid opcode), a vote for a non-candidate whose gas limit x price alone crosses V's step (discarded); sub-transactions: top-up, vote, re-vote, transfer to the voter, unregister, a FIRST registration (deposit moved and votes set before the box is undone), a vote that always fails (failures also arise from the state: vote for the same candidate again, register / vote after unregistering); oracle = the tally equation on the state the miner saved AND on the validator's, after every block the miner produced whatever it discarded; a validator refusing the miner's block is a violation"
+	return t + "plain items: transfers over V's 200-LEMO step in both directions, vote / re-vote, top-up over the 100-LEMO step, unregister, a first registration, contract calls that forward 150 LEMO to V (ok / then REVERT / then invalid opcode), a vote for a non-candidate whose gas limit x price alone crosses V's step (discarded), register transactions whose isCandidate field is false in a first registration / neither true nor false; sub-transactions: top-up, vote, re-vote, transfer to the voter, unregister, a FIRST registration (deposit moved and votes set before the box is undone), a vote that always fails (failures also arise from the state: vote for the same candidate again, register / vote after unregistering); oracle = the tally equation on the state the miner saved AND on the validator's, after every block the miner produced whatever it discarded; a validator refusing the miner's block is a violation"
 }
 
 // rSelfCheck is the non-vacuity gate of phase R.
